@@ -78,7 +78,8 @@ def run(tier, seed, replay):
     flags = G.read_flags()
     G.write_flags(flags)
     chk.notes.append("identifier-to-string sites of enum_from: key `%s`, guard `%s`, type name `%s`" %
-                     (flags["key_expr"], flags["guard_expr"], flags["name_expr"]))
+                     (flags["key_expr"], flags["guard_expr"], flags["name_expr"]) +
+                     "".join("; UNRECOGNISED: " + u for u in flags["unrecognised"]))
     inproc = common.build_inproc()
     st = common.check_proofs(chk, "C13", extra_dirs=("Gen",))
     ku, gu, nu = ("true" if flags[k] else "false" for k in ("key_unraw", "guard_unraw", "name_unraw"))
@@ -306,6 +307,10 @@ def run(tier, seed, replay):
                               "a struct without exactly one field must be refused (model: %s, expander: %s)" % (t, str(resp)[:120]))
     chk.cov["traces_validated_against_impl"] = n_tie
 
+    if flags["unrecognised"] and not chk.violations:
+        chk.violation("source-template-unrecognised", {"unrecognised": flags["unrecognised"]},
+                      "from_str.rs no longer has the sites the model's switches are read from (%s) and the differential run "
+                      "found no failing input" % "; ".join(flags["unrecognised"]), no_input=True)
     if getattr(chk, "proof_broken", False) and not chk.violations:
         chk.violation("proof-broken", chk.proof_failure, "a C13 proof obligation no longer checks: %s" %
                       chk.proof_failure["failed"], no_input=True)
